@@ -7,6 +7,7 @@ import SafeHtml.Spec.HtmlTok
 import SafeHtml.Spec.CharRef
 import SafeHtml.Spec.UrlScheme
 import SafeHtml.Spec.Srcset
+import SafeHtml.Spec.Rfc3986
 namespace SafeHtml.Oracle.C01
 open SafeHtml SafeHtml.Spec SafeHtml.Spec.HtmlTok
 
@@ -151,8 +152,43 @@ def c02Tokens : List Token → Bytes → Option String
   | .comment d _ :: rest, cur => if contains marker d then some "untrusted-in-comment" else c02Tokens rest cur
   | _ :: rest, cur => c02Tokens rest cur
 
-/-- **C02** on the executed output of a template whose untrusted data all carries `marker` -/
-def c02 (tmpl out : Bytes) : String :=
+/-- URL values (decoded attribute values / srcset candidates) with the javascript scheme in the output -/
+def jsValues : List Token → List Bytes
+  | [] => []
+  | .startTag _ attrs _ :: rest =>
+    (attrs.flatMap fun a =>
+      let v := CharRef.decodeAttr a.2
+      if a.1 == B "srcset" then
+        ((Srcset.candidates v).filter fun c => UrlScheme.whatwgScheme c.1 == some UrlScheme.javascript).map (·.1)
+      else if urlAttr a.1 && UrlScheme.whatwgScheme v == some UrlScheme.javascript then [v] else []) ++ jsValues rest
+  | _ :: rest => jsValues rest
+
+def stripC0 (s : Bytes) : Bytes := (UrlScheme.preprocess s)
+
+/-- some single data string is by itself a javascript: URL and reaches the output whole (modulo percent-encoding):
+    then the failure is NOT an instance of "each piece was harmless, the concatenation is not" -/
+def wholeJsDatum (data : List Bytes) (vals : List Bytes) : Bool :=
+  data.any fun d =>
+    (UrlScheme.whatwgScheme d == some UrlScheme.javascript ||
+     UrlScheme.whatwgScheme (CharRef.decodeAttr d) == some UrlScheme.javascript) &&
+    vals.any fun v =>
+      let pv := Rfc3986.pctDecode (stripC0 v)
+      let pd := Rfc3986.pctDecode (stripC0 d)
+      let pd2 := Rfc3986.pctDecode (stripC0 (CharRef.decodeAttr d))
+      pd.isPrefixOf pv || pd2.isPrefixOf pv
+
+/-- the javascript URL consists of static template text (`S{{` occurs in the template) followed by ONE datum:
+    then only one dynamic piece is involved and the failure is not an instance of "split over several actions" -/
+def staticPlusOneDatum (tmpl : Bytes) (data : List Bytes) (vals : List Bytes) : Bool :=
+  vals.any fun v =>
+    let pv := Rfc3986.pctDecode (stripC0 v)
+    data.any fun d =>
+      let pd := Rfc3986.pctDecode d
+      !pd.isEmpty && pd.length < pv.length && pv.drop (pv.length - pd.length) == pd &&
+        contains (pv.take (pv.length - pd.length) ++ [123, 123]) tmpl
+
+/-- **C02** on the executed output of a template whose untrusted data (`data`: every string leaf) all carries `marker` -/
+def c02 (tmpl out : Bytes) (data : List Bytes := []) : String :=
   let r := tokenize out
   match c02Tokens r.tokens [] with
   | none => "pass"
@@ -172,10 +208,11 @@ def c02 (tmpl out : Bytes) : String :=
         | some j => j > 0
         | none => false
       | none => false
+    let whole := wholeJsDatum data (jsValues r.tokens) || staticPlusOneDatum tmpl data (jsValues r.tokens)
     let sig :=
       if hasSplitName tmpl then "split-name"
-      else if clause == "javascript-url-in-srcset" && srcsetPrefix then "srcset-static-prefix"
-      else if multiAction && (clause == "javascript-url" || clause == "javascript-url-in-srcset") then "split-scheme"
+      else if clause == "javascript-url-in-srcset" && srcsetPrefix && !wholeJsDatum data (jsValues r.tokens) then "srcset-static-prefix"
+      else if multiAction && !whole && (clause == "javascript-url" || clause == "javascript-url-in-srcset") then "split-scheme"
       else if clause == "untrusted-at-code-url-origin" && contains (B "rel=\"{{") lt then "rel-dynamic"
       else ""
     verdict clause sig
